@@ -4,6 +4,7 @@ go 1.23.7
 
 require (
 	filippo.io/edwards25519 v1.0.0
+	github.com/StephenButtolph/canoto v0.15.0
 	github.com/ava-labs/avalanchego v1.13.1-rc.0.0.20250414210208-c8b3f57d2a25
 	github.com/ava-labs/hypersdk v0.0.0-00010101000000-000000000000
 	github.com/ava-labs/hypersdk/examples/morpheusvm v0.0.0-00010101000000-000000000000
@@ -16,7 +17,6 @@ require (
 
 require (
 	github.com/DataDog/zstd v1.5.2 // indirect
-	github.com/StephenButtolph/canoto v0.15.0 // indirect
 	github.com/beorn7/perks v1.0.1 // indirect
 	github.com/cenkalti/backoff/v4 v4.2.1 // indirect
 	github.com/cespare/xxhash/v2 v2.3.0 // indirect
